@@ -125,4 +125,25 @@ PROPS = {
   'explanation': 'One lemma per clause of the mapping over serve_http; the content-type / encoding / extension tables are regenerated from the source and must equal the specification tables; '
                  'the model is compared with ServeHTTP through a recorder on every case.',
  },
+ 'C09': {
+  'uses_generated': True,
+  'rule': 'schedules over 1..3 archives (root-only to two leaf levels, mixed directories, gzip/none) and 2..7 concurrent tile requests (stored / absent tiles, wrong extension, missing archive) with a random '
+          'release order of the blocked bucket calls; after every macro step the set of blocked calls and the completed requests of the real server are compared with the model. '
+          'Non-trivial: more than two requests; distinct by case line',
+  'trusted_base': ['the Go scheduler, channel semantics and real time are abstracted to an interleaving LTS at the granularity of loop messages and bucket calls (coq/Model/Server.v)',
+                   'the scheduling bucket of the harness stands for the bucket contract of the property (tag per version, conditional reads honoured)',
+                   'quiescence of the real server is detected from goroutine states (runtime.Stack)', GZIP],
+  'assumptions': ['cache size 64 MB in the schedules (no eviction occurs); eviction is covered by the theorems as arbitrary removal and by the size-bound lemmas'],
+  'explanation': 'C09 theorems are instances of the invariant of the server LTS (any interleaving, any eviction); the executable stepper is proved to follow the LTS and is compared with the real server step by step.',
+ },
+ 'C08': {
+  'uses_generated': True,
+  'rule': 'schedules with 1..2 archives, warm or cold cache, 2..6 tile requests and 0..3 replacements (new versions with different sizes, layouts, leaf structures; occasional deletion) placed before or between '
+          'the releases of blocked bucket calls. Non-trivial: at least one replacement; distinct by case line',
+  'trusted_base': ['the Go scheduler, channel semantics and real time are abstracted to an interleaving LTS at the granularity of loop messages and bucket calls (coq/Model/Server.v)',
+                   'the scheduling bucket of the harness stands for the bucket contract of the property (tag per version, conditional reads honoured)',
+                   'quiescence of the real server is detected from goroutine states (runtime.Stack)', GZIP],
+  'assumptions': ['tags are unique per version of an archive'],
+  'explanation': 'C08_single_version is the invariant of the LTS for every reachable state; the oracle checks every response of the real server against single versions current during the request.',
+ },
 }
